@@ -1,4 +1,5 @@
 #!/bin/bash
+# (evidence and replay files of these runs go to /var/tmp/vf-try-out, never to /verif/evidence)
 # usage: try_patch.sh <patch.diff> <Cxx> [more vf args]   -- run a check against a scratch copy of /repo with the patch applied
 set -e
 P=$(readlink -f "$1"); shift
@@ -6,7 +7,7 @@ PROP=$1; shift
 D=/var/tmp/vf-try-$$
 mkdir -p $D && cp -r /repo/syne_tune $D/ && (cd $D && git init -q . >/dev/null 2>&1; patch -p1 -s < "$P")
 set +e
-PYVC_REPO=$D /verif/vf check $PROP "$@"
+PYVC_REPO=$D PYVC_OUT_DIR=/var/tmp/vf-try-out /verif/vf check $PROP "$@"
 rc=$?
 rm -rf $D
 echo "exit=$rc"
